@@ -15,7 +15,7 @@ MAP_TRACED = ("/tracklib/algo/mapping.py", "/tracklib/algo/dynamics.py")
 C06_OPS = ("dist", "dist_all", "all_pairs", "prepare", "prepared")
 C07_OPS = ("path", "path_multi", "forward", "backward")
 C10_OPS = ("map", "remap", "map_span")
-OTHER_OPS = ("add_edge", "reload", "index", "simplify", "sub_network", "set_weight", "save_prep", "load_prep", "rescale", "abs_again", "set_routing", "save_index", "load_index", "break_weight", "inspect_edge")
+OTHER_OPS = ("add_edge", "reload", "index", "simplify", "sub_network", "set_weight", "save_prep", "load_prep", "rescale", "abs_again", "set_routing", "save_index", "load_index", "break_weight", "inspect_edge", "annotate_edges")
 
 
 def _wchoice(r, pairs):
@@ -176,7 +176,7 @@ class NetWorld(World):
     # ------------------------------------------------ invariant after every step
     # steps after which the labels of an earlier run_routing_forward are still the ones it left
     KEEPS_LABELS = ("backward", "prepared", "set_routing", "index", "map", "remap", "map_span", "save_prep",
-                    "load_prep", "abs_again", "save_index", "load_index")
+                    "load_prep", "abs_again", "save_index", "load_index", "annotate_edges", "inspect_edge")
 
     def execute(self, step):
         s_ = step.get("s", 0)
@@ -348,8 +348,9 @@ class NetWorld(World):
                     st["fault"] = {"kind": r.choice(["open_error", "write_error"]), "at": 1, "errno": 28}
                 return st
             if self.cfg["road"] and r.random() < self.cfg.get("rescale", 0):
-                return {"op": r.choice(["rescale", "abs_again", "abs_again"]), "s": s,
-                        "h": r.choice([2.0, 0.5, 4.0]), "twice": r.random() < 0.5}
+                return {"op": r.choice(["rescale", "abs_again", "abs_again", "annotate_edges", "annotate_edges"]), "s": s,
+                        "h": r.choice([2.0, 0.5, 4.0]), "twice": r.random() < 0.5, "e": r.randrange(64),
+                        "resurvey": r.random() < 0.7}
             if r.random() < self.cfg.get("subnet", 0):
                 return {"op": "sub_network", "s": s, "a": r.randrange(64), "cut": self._gen_cut(r, m),
                         "mode": r.choice(["TOPOLOGIC", "TOPOLOGIC", "GEOMETRIC"]),
@@ -392,7 +393,8 @@ class NetWorld(World):
                 return {"op": "sub_network", "s": s, "a": r.randrange(64), "cut": self._gen_cut(r, m),
                         "mode": "GEOMETRIC", "to": None}
             return {"op": "path", "s": s, "a": r.randrange(64), "b": r.randrange(64),
-                    "as_node": r.random() < 0.2, "rec": r.random() < 0.2, "scribble": r.random() < 0.25}
+                    "as_node": r.choice([False, False, False, False, True, "foreign"]), "rec": r.random() < 0.2,
+                    "scribble": r.random() < 0.25}
         # C10: needs abs_curv on every edge, an index and prepared distances
         if m["index"] is None or (r.random() < 0.05):
             return {"op": "index", "s": s, "frac": None if r.random() < 0.3 else
@@ -476,7 +478,7 @@ class NetWorld(World):
                 st["wf"] = r.choice([0.1, 0.5, 3.0])       # weight = travel time, not length
             return st
         nn = cfg["max_nodes"]
-        nid = (lambda k: k) if ints else (lambda k: "" if (k == 1 and cfg.get("empty_id")) else "n%d" % k)
+        nid = (lambda k: k - 2) if ints else (lambda k: "" if (k == 1 and cfg.get("empty_id")) else "n%d" % k)
         a = nid(r.randrange(nn))
         b = a if r.random() < cfg["loops"] else nid(r.randrange(nn))
         w = 0 if r.random() < cfg["zero_w"] else r.choice([0.5, 1, 1, 2, 3, 4, 0.25])
@@ -794,7 +796,11 @@ class NetWorld(World):
             raise Skip()
         m["last_source"] = a
         rec = {} if st.get("rec") else None
-        if st.get("as_node"):
+        if st.get("as_node") == "foreign":
+            from tracklib.core import Node, ENUCoords
+            self.probe("query_with_node_objects_of_another_network")
+            rv, exc = self.call(net.shortest_path, Node(a, ENUCoords(0, 0, 0)), Node(b, ENUCoords(1, 1, 0)))
+        elif st.get("as_node"):
             rv, exc = self.call(net.shortest_path, net.getNode(a), net.getNode(b))
         elif rec is not None:
             rv, exc = self.call(net.shortest_path, a, b, 1e300, rec)
@@ -847,7 +853,12 @@ class NetWorld(World):
         b = ids[st["b"] % len(ids)]
         if b == f["src"]:
             raise Skip()
-        rv, exc = self.call(net.run_routing_backward, b)
+        if st["b"] % 3 == 0:
+            from tracklib.core import Node, ENUCoords
+            self.probe("query_with_node_objects_of_another_network")
+            rv, exc = self.call(net.run_routing_backward, Node(b, ENUCoords(0, 0, 0)))
+        else:
+            rv, exc = self.call(net.run_routing_backward, b)
         if exc is not None:
             return self._unexpected("C07", exc, "run_routing_backward(%s), some steps after run_routing_forward(%s)"
                                     % (b, f["src"]))
@@ -1197,6 +1208,30 @@ class NetWorld(World):
         m["index"] = {"extent": f["extent"]}
         self.probe("spatial_index_loaded")
 
+    def op_annotate_edges(self, st):
+        """The caller attaches an attribute of his own (maxspeed) to every edge geometry, then
+        re-surveys one road: its abscissa is removed and computed again, so on that geometry it
+        now sits in another column than on the others."""
+        from tracklib.algo.cinematics import computeAbsCurv
+        net, m = self._sess(st)
+        if not m["edges"] or not m["all_abs"] or m.get("shared"):
+            raise Skip()
+        for k, e in enumerate(m["edges"]):
+            g = net.getEdge(e["id"]).geom
+            if not g.hasAnalyticalFeature("maxspeed"):
+                _, exc = self.call(g.createAnalyticalFeature, "maxspeed", 1000.0 + k)
+                if exc is not None:
+                    return self._unexpected("C10", exc, "createAnalyticalFeature on an edge geometry")
+        if st.get("resurvey"):
+            g = net.getEdge(m["edges"][st["e"] % len(m["edges"])]["id"]).geom
+            _, exc = self.call(g.removeAnalyticalFeature, "abs_curv")
+            if exc is None:
+                _, exc = self.call(computeAbsCurv, g)
+            if exc is not None:
+                return self._unexpected("C10", exc, "recomputing abs_curv on one edge geometry")
+            self.probe("abscissa_in_different_columns_on_different_edges")
+        self.probe("attribute_attached_to_edge_geometries")
+
     def op_abs_again(self, st):
         """computeAbsCurv once more on every edge geometry (a no-op by contract)."""
         from tracklib.algo.cinematics import computeAbsCurv
@@ -1301,6 +1336,10 @@ class NetWorld(World):
                           "prepared": None, "ptable": None, "grown_since_prepare": False, "exact": m["exact"],
                           "all_abs": m["all_abs"], "shared": True}
         m["shared"] = True
+        self.groupc = getattr(self, "groupc", 0) + 1
+        gid = m.get("group") or self.groupc
+        m["group"] = gid
+        self.model[to]["group"] = gid            # the two networks hold the same Edge and Node objects
         for k in [k for k in self.tracks if k[0] == to]:
             del self.tracks[k]
         # files the previous network of that session saved describe another network
@@ -1317,8 +1356,8 @@ class NetWorld(World):
         net, m = self._sess(st)
         if not m["edges"] or any(e["pts"][0] == e["pts"][-1] for e in m["edges"]):
             raise Skip()            # closed geometries: division by zero in the simplifier (C16, not claimed)
-        if m.get("shared"):
-            raise Skip()            # edges shared with an extracted sub-network (by design): one model per object
+        if m.get("shared") and not m.get("group"):
+            raise Skip()
         if any(p == q for e in m["edges"] for p, q in zip(e["pts"], e["pts"][1:])):
             raise Skip()
         for e in m["edges"]:
@@ -1342,6 +1381,19 @@ class NetWorld(World):
         m["index"] = None if m["index"] is None else m["index"]
         for k in [k for k in self.tracks if k[0] == st.get("s", 0)]:
             del self.tracks[k]              # states decoded on the old geometries say nothing any more
+        if m.get("group"):
+            # an extracted sub-network and its parent hold the same Edge objects (by design): the
+            # geometries of the common edges changed in every network of the group
+            self.probe("simplification_reaches_the_networks_sharing_the_edges")
+            for s2, m2 in self.model.items():
+                if m2 is m or m2.get("group") != m["group"]:
+                    continue
+                for e2 in m2["edges"]:
+                    g2 = self.real[s2].getEdge(e2["id"]).geom
+                    e2["pts"] = [[o.position.getX(), o.position.getY()] for o in g2]
+                m2["all_abs"] = False
+                for k in [k for k in self.tracks if k[0] == s2]:
+                    del self.tracks[k]
 
     # ------------------------------------------------------------------ C10 ops
     def _extent(self, m):
